@@ -47,6 +47,18 @@ def access_program(t, index, runtime, in_sub):
     return abiprog.wrap(body, in_sub)
 
 
+def relookup_program(t, i1, i2):
+    """two look-ups on ONE array object with a second decode in between: arg0 is decoded, element i1 logged, arg1 is
+    decoded into the same object, element i2 logged"""
+    def body():
+        x = abitypes.to_spec(t).new_instance()
+        et = elem_type(t, 0)
+        y1, y2 = abitypes.to_spec(et).new_instance(), abitypes.to_spec(et).new_instance()
+        return [x.decode(pt.Txn.application_args[0]), x[i1].store_into(y1), pt.Log(y1.encode()),
+                x.decode(pt.Txn.application_args[1]), x[i2].store_into(y2), pt.Log(y2.encode())]
+    return abiprog.wrap(body, False)
+
+
 def mixed_sub_program(t, index, runtime, abi_first):
     """the access happens inside a subroutine that takes the decoded ABI value AND a plain expression (the index): a
     signature mixing ABI-typed and untyped parameters"""
@@ -102,6 +114,11 @@ def main():
     if tier == "quick":
         t2 = rnd.sample(t2, min(len(t2), 50))
     types += t2
+    t3, g3 = abitypes.gen("wide", 2, "c07c")          # elements at byte offsets >= 256, elements of 255 / 256 bytes
+    chk.add_tlc(g3)
+    if g3.error or not t3:
+        chk.machinery_failure("ARC4Gen (wide) failed: %s" % g3.error)
+    types += t3
     versions = (6, 8, 9) if tier == "quick" else (5, 6, 7, 8, 9, 10)
     entries, metas, descr = [], [], []
 
@@ -165,6 +182,13 @@ def main():
                         ok_cases = [c for c in cases if "out-of-range" not in c[2]]
                         for abi_first in (True, False):
                             add(lambda t=t, af=abi_first: mixed_sub_program(t, 0, True, af), "%s [run-time] mixed-signature-sub %s" % (d["sig"], "abi-first" if abi_first else "expr-first"), ok_cases)
+        if k == "darray":
+            # the same array object decoded twice (values of different lengths), an element looked up after each decode
+            pairs = [(a, b) for a in d["vals"] for b in d["vals"] if a is not b and a["comps"] and b["comps"] and len(a["comps"]) != len(b["comps"])]
+            for a, b in pairs[:2]:
+                i1, i2 = len(a["comps"]) - 1, len(b["comps"]) - 1
+                add(lambda t=t, i1=i1, i2=i2: relookup_program(t, i1, i2), "%s [%d] then [%d] after a second decode" % (d["sig"], i1, i2),
+                    [([a["enc"], b["enc"]], abiprog.expect_log([a["comps"][i1]["enc"], b["comps"][i2]["enc"]]), "two values")])
         if k in ("darray", "string"):
             cases = [([v["enc"]], abiprog.expect_log([itob(len(v["comps"]))]), "value#%d" % j) for j, v in enumerate(d["vals"])]
             add(lambda t=t: length_program(t, False), "%s length()" % d["sig"], cases)
